@@ -76,10 +76,10 @@ def run(ctx):
     for name, cx, fams in GROUPS:
         ctx.tlc("blas/BlasGen.tla", "blas/BlasGen.cfg", workers=workers, timeout=1500,
                 name="R1 semantics theorems (footprint, poison independence, exactness, solves) " + name,
-                subst=base_subst(ctx, cx, fams, 400 if thorough else 100, checks=True))
+                subst=base_subst(ctx, cx, fams, 400 if thorough else 60, checks=True))
 
     # ---- R2: generated calls replayed into gonum ------------------------------
-    target = {"L1": 6000, "L2": 5000, "L3": 2500} if thorough else {"L1": 1200, "L2": 1500, "L3": 700}
+    target = {"L1": 6000, "L2": 5000, "L3": 2500} if thorough else {"L1": 1000, "L2": 1000, "L3": 600}
     for name, cx, fams in GROUPS:
         cases = ctx.gen("blas/BlasGen.tla", "blas/BlasGen.cfg", workers=workers, name="R2 gen " + name,
                         subst=base_subst(ctx, cx, fams, target[name[:2]]))
@@ -88,7 +88,7 @@ def run(ctx):
     # block-edge and parallel-threshold shapes (64-element blocks, >= 4 blocks => parallel gemm)
     for name, cx, fams, lvl in BIG:
         dims = [63, 64, 65, 129] if thorough else [63, 64, 65]
-        tg = (40 if lvl == 2 else 16) if thorough else (12 if lvl == 2 else 5)
+        tg = (40 if lvl == 2 else 12) if thorough else (12 if lvl == 2 else 2)
         cases = ctx.gen("blas/BlasGen.tla", "blas/BlasGen.cfg", workers=workers, name="R2 gen " + name, timeout=2400,
                         subst=base_subst(ctx, cx, fams, tg, DIMS=tset(dims), DIMS3=tset(dims), RAY="{}", INCMAX=2))
         for bn, _ in builds:
